@@ -22,7 +22,7 @@ use crate::classic::clvm_tools::stages::stage_0::TRunProgram;
 use crate::classic::clvm_tools::stages::stage_2::helpers::quote;
 use crate::classic::clvm_tools::stages::stage_2::operators::AllocatorRefOrTreeHash;
 
-use crate::util::{number_from_u8, u8_from_number, Number};
+use crate::util::{u8_from_number, Number};
 
 #[derive(Clone)]
 pub struct DoOptProg {}
@@ -224,7 +224,7 @@ fn path_from_args(
         SExp::Atom => {
             // Only sexp in scope.
             let atom = allocator.atom(sexp);
-            let v = number_from_u8(atom.as_ref());
+            let v = Number::from_bytes_be(Sign::Plus, atom.as_ref());
             if v == bi_zero() {
                 // A nil in code evaluates to nil; it does not refer to the arguments.
                 Ok(sexp)
